@@ -159,6 +159,9 @@ func collectDeclDependencies(d Decl) []string {
 		}
 	case *AliasDecl:
 		collectTypeRefs(d.Type, add)
+	case *ConstAssertDecl:
+		// the constants an assertion reads must be lowered before it is evaluated
+		collectExprDeps(d.Condition, nil, add)
 	}
 	return refs
 }
@@ -288,6 +291,8 @@ func collectStmtDeps(s Stmt, locals map[string]bool, add func(string)) {
 			}
 			collectBlockDeps(c.Body, locals, add)
 		}
+	case *ConstAssertDecl:
+		collectExprDeps(s.Condition, locals, add)
 	case *ExprStmt:
 		collectExprDeps(s.Expr, locals, add)
 	case *BreakIfStmt:
